@@ -54,14 +54,38 @@ def run_model(lines, shards=1):
             for d in ex.map(lambda ch: run_model(ch, 1), chunks):
                 out.update(d)
         return out
+    res = {}
+    remaining = list(lines)
+    for _ in range(50):
+        r, rc, err = _run_once(exe, remaining)
+        res.update(r)
+        if rc == 0:
+            break
+        # the driver died (memory limit, stack): the first unanswered case is the one it could not evaluate;
+        # it is marked and the rest is run in a new process
+        ids = [l[1:].split(" ", 1)[0] for l in remaining]
+        idx = next((k for k, i in enumerate(ids) if i not in res), None)
+        if idx is None:
+            break
+        res[ids[idx]] = "(resource)"
+        remaining = remaining[idx + 1:]
+        if not remaining:
+            break
+    else:
+        res["__driver_error__"] = "driver kept dying: " + err[-500:]
+    return res
+
+
+def _run_once(exe, lines):
     d = tempfile.mkdtemp(prefix="model-", dir=scratch())
     fin = os.path.join(d, "in.sx")
     fout = os.path.join(d, "out.txt")
     with open(fin, "w") as f:
         for l in lines:
             f.write(l + "\n")
-    env = dict(os.environ, OCAMLRUNPARAM="l=8G")
-    p = subprocess.run(["bash", "-c", "ulimit -s unlimited 2>/dev/null; exec \"$0\" \"$1\" \"$2\"", exe, fin, fout],
+    env = dict(os.environ, OCAMLRUNPARAM="l=4G")
+    # 8 GB address-space limit per driver process: a case whose evaluation explodes (exponentially many outcomes) is dropped, not the machine
+    p = subprocess.run(["bash", "-c", "ulimit -s unlimited 2>/dev/null; ulimit -v 8388608 2>/dev/null; exec \"$0\" \"$1\" \"$2\"", exe, fin, fout],
                        capture_output=True, text=True, env=env)
     res = {}
     if os.path.exists(fout):
@@ -70,10 +94,8 @@ def run_model(lines, shards=1):
             if "\t" in line:
                 k, v = line.split("\t", 1)
                 res[k] = v
-    if p.returncode != 0:
-        res["__driver_error__"] = p.stderr[-2000:]
     shutil.rmtree(d, ignore_errors=True)
-    return res
+    return res, p.returncode, p.stderr
 
 
 # ---- tiny sexp reader for the driver's answers ----
